@@ -34,6 +34,24 @@ pub struct ConversionFrequency {
     frequencies: HashMap<ConvertedResult, Frequency>,
 }
 
+#[cfg(chokan_verif)]
+impl ConversionFrequency {
+    /// verification hook: (context debug name, word, count, last occurrence), sorted
+    pub fn verif_entries(&self) -> Vec<(String, String, u64, i64)> {
+        let mut v: Vec<(String, String, u64, i64)> = self
+            .frequencies
+            .iter()
+            .map(|(k, f)| match k {
+                ConvertedResult::Word { context, word } => {
+                    (format!("{:?}", context), word.clone(), f.count, f.last_occurrance)
+                }
+            })
+            .collect();
+        v.sort();
+        v
+    }
+}
+
 impl Default for ConversionFrequency {
     fn default() -> Self {
         Self::new()
